@@ -1,11 +1,261 @@
 import SageModel.Proto
+import SageModel.Model.C20
 
-/-! Driver ops for C20 (stub: no ops yet). -/
+/-! Driver ops for C20.
+
+```
+align n_files [n (file pep label q:f32 rt:f32)…]
+    | [n_files (max_rt:f32 slope:f32 intercept:f32)…] [n aligned_rt:f32…]          (or `panic`)
+rtpredict  [np seq…] [n (pep label q:f32 aligned_rt:f32)…]
+    | 1 [n (r:f64 predicted:f32 delta:f32)…]   or   0 [n (predicted:f32 delta:f32)…]
+imspredict [np seq…] [n (pep label q:f32 charge ims:f32)…]            (same reply shape)
+```
+
+## `align`: how `agree` is decided
+
+`max_rt` is compared bit-exactly. `slope`/`intercept` are sums over the rows of the RT matrix, which the
+code visits in `DashMap` iteration order (not fixed; the model uses first-occurrence order), so they
+are compared within a **forward error bound of the f64 computation** (`fitErr`, derived from the
+standard bound `|fl(Σ tᵢ) − Σ tᵢ| ≤ (n−1)·u·Σ|tᵢ|`, `u = 2⁻⁵³`, propagated through
+`x̄, ȳ, ssxy, sx2, slope, intercept`), times 4, plus one f32 ulp for the final `as f32`. This is a bound,
+not a tuned tolerance: for well-conditioned files it is ~10⁻¹⁴ relative, i.e. the f32 values must
+agree to the last ulp. Finiteness classes (finite / NaN / ±∞) and the fallback values `1.0` / `0.0`
+are compared exactly. `aligned_rt` is compared with the model's value within the bound propagated
+through `(rt/max_rt)*slope+intercept`, AND (spec clause `aligned_ne_affine`) bit-exactly with that
+f32 expression evaluated on the implementation's own parameters.
+
+## spec clauses on the implementation's reply (`bad:<clause>`)
+
+`panic` (valid input), `shape`, `nonfinite_param`, `max_rt_nonpositive`, `scale`, `aligned_ne_affine`,
+`nonfinite_aligned`, `not_monotone`, `own_file_slope_out_of_range`, `not_equivariant`;
+for the predict ops `nonfinite_prediction`, `predicted_out_of_range`, `delta_ne_abs_diff`,
+`nonfinite_delta`, `touched_without_fit`.
+-/
 namespace Sage.C20
-open Sage.Proto
+open Sage.Proto FloatLike
+
+/-! ### constants of the code -/
+def thr32 : Float32 := 0.01          -- `feat.spectrum_q <= 0.01`
+def epsF : Float := 1e-8             -- `fold(1E-8f64, …)`
+def epsQ : Rat := (ratOfF64Bits epsF.toBits.toNat).getD 0
+
+def narrowF (x : Float) : Float := x.toFloat32.toFloat
+def ceilF (x : Float) : Nat := x.toFloat32.ceil.toUInt32.toNat     -- `rt.ceil() as u32` (x is an f32 value)
+def ceilQ (x : Rat) : Nat := min (Rat.ceil x).toNat (2^32 - 1)
+
+def sameBits32 (a b : Float32) : Bool := a.toBits == b.toBits || (a.isNaN && b.isNaN)
+
+/-! ### forward error bound of `fit` at f64 (see header) -/
+
+def u53 : Float := Float.ofBits 0x3CA0000000000000   -- 2⁻⁵³
+
+/-- bounds on `|computed − exact|` for `(slope, intercept)` of `fit ε pts`, any summation order -/
+def fitErr (ε : Float) (pts : List (Float × Float)) : Float × Float :=
+  if pts.isEmpty then (0, 0) else
+  let n := pts.length.toFloat
+  let u := u53
+  let sA := sumFrom 0 (pts.map fun p => (p.1 * p.2).abs)
+  let sBx := sumFrom 0 (pts.map fun p => p.1.abs)
+  let sBy := sumFrom 0 (pts.map fun p => p.2.abs)
+  let sx := sumFrom 0 (pts.map (·.1))
+  let sy := sumFrom 0 (pts.map (·.2))
+  let dot := sumFrom 0 (pts.map fun p => p.1 * p.2)
+  let xm := sx / n
+  let ym := sy / n
+  let eDot := (n + 2) * u * sA
+  let eXm := (n + 1) * u * sBx / n + u * xm.abs
+  let eYm := (n + 1) * u * sBy / n + u * ym.abs
+  let t := n * xm * ym
+  let eT := n * (ym.abs * eXm + xm.abs * eYm + eXm * eYm) + 2 * u * t.abs
+  let ssxy := dot - t
+  let eSs := eDot + eT + u * ssxy.abs
+  let d1 := sumFrom 0 (pts.map fun p => (p.1 - xm).abs)
+  let d2 := sumFrom 0 (pts.map fun p => (p.1 - xm) * (p.1 - xm))
+  let sx2 := ε + d2
+  let eSx2 := 2 * eXm * d1 + n * eXm * eXm + 4 * u * d2 + (n + 2) * u * sx2
+  let slope := ssxy / sx2
+  let den := sx2 - eSx2
+  if !(den > 0) then (1e300, 1e300) else
+  let eSl := (eSs + slope.abs * eSx2) / den + u * slope.abs
+  let eIn := eYm + slope.abs * eXm + xm.abs * eSl + eSl * eXm + 2 * u * (ym.abs + (slope * xm).abs)
+  (eSl, eIn)
+
+def ulp32 (v : Float) : Float :=
+  let a := v.abs * Float.ofBits 0x3E80000000000000      -- 2⁻²³
+  let m := Float.ofBits 0x36A0000000000000              -- 2⁻¹⁴⁹
+  if a < m then m else a
+
+/-- same finiteness class, and finite values within `tol` -/
+def close32 (m i : Float32) (tol : Float) : Bool :=
+  if m.isFinite && i.isFinite then decide ((m.toFloat - i.toFloat).abs ≤ tol)
+  else sameBits32 m i
+
+/-! ### `align` -/
+
+abbrev RawFeat := Nat × Nat × Int × Float32 × Float32
+
+def parseAlign : P (Nat × List RawFeat) := do
+  let nf ← nat
+  let fs ← list (do
+    let f ← nat; let p ← nat; let l ← int; let q ← f32; let rt ← f32
+    pure (f, p, l, q, rt))
+  pure (nf, fs)
+
+def parseAlignReply : P (List (Float32 × Float32 × Float32) × List Float32) := do
+  let al ← list (do let a ← f32; let b ← f32; let c ← f32; pure (a, b, c))
+  let v ← list f32
+  pure (al, v)
+
+def renderAlign (al : List (Float32 × Float32 × Float32)) (v : List Float32) : String :=
+  outList (fun a => s!"{outF32 a.1} {outF32 a.2.1} {outF32 a.2.2}") al ++ " " ++ outList outF32 v
+
+def ratOf32 (x : Float32) : Option Rat := ratOfF32Bits x.toBits.toNat
+def ratOf64 (x : Float) : Rat := (ratOfF64Bits x.toBits.toNat).getD (dyadic 1 0 * 10^300)
+
+/-- `not_monotone`, evaluated per file on the RT-sorted PSMs (adjacent pairs; equal RTs must get equal
+    values) — equivalent to the O(n²) `specMonotone` on NaN-free values, which is used when n ≤ 48 -/
+def monotoneSorted (nFiles : Nat) (fs : List (Feat Float32)) (al : List (Float32 × Float32 × Float32))
+    (aligned : List Float32) : Bool :=
+  (List.range nFiles).all fun f =>
+    match al[f]? with
+    | none => false
+    | some a =>
+      if !(decide ((0 : Float32) ≤ a.2.1)) then true else
+      let pts := ((fs.zip aligned).filter fun (x, _) => x.file == f && x.rt.isFinite).map fun (x, v) => (x.rt, v)
+      let sorted := pts.mergeSort (fun p q => decide (p.1 ≤ q.1))
+      (sorted.zip (sorted.drop 1)).all fun (p, q) =>
+        decide (p.2 ≤ q.2) && (!(p.1 == q.1) || decide (q.2 ≤ p.2))
+
+def handleAlign (args impl : List String) : Option Reply := do
+  let (nFiles, raw) ← run parseAlign args
+  let implText := " ".intercalate impl
+  let feats : List (Feat Float) := raw.map fun (f, p, l, q, rt) => ⟨f, p, l, q.toFloat, rt.toFloat⟩
+  let fs32 : List (Feat Float32) := raw.map fun (f, p, l, q, rt) => ⟨f, p, l, q, rt⟩
+  match globalAlignment narrowF ceilF thr32.toFloat epsF feats nFiles with
+  | none =>
+    -- `file_id ≥ n_files`: the code indexes out of bounds; outside the property's domain
+    pure (exact "panic" implText "na")
+  | some alM =>
+    let rows := rtRows ceilF thr32.toFloat feats nFiles
+    let errs : List (Float × Float) := (List.range nFiles).map fun f => fitErr epsF (pairs rows f)
+    let alM32 : List (Float32 × Float32 × Float32) :=
+      alM.map fun a => (Float32.ofNat a.1, a.2.1.toFloat32, a.2.2.toFloat32)
+    let alignedOf (al : List (Float32 × Float32 × Float32)) : List Float32 := fs32.map fun x =>
+      match al[x.file]? with
+      | some a => alignedRt x.rt a.1 a.2.1 a.2.2
+      | none => Float32.ofBits 0x7fc00000
+    let vM := alignedOf alM32
+    let model := renderAlign alM32 vM
+    match run parseAlignReply impl with
+    | none =>
+      let spec := if impl == ["panic"] then "bad:panic" else "bad:shape"
+      pure { model := model, agree := false, spec := spec }
+    | some (alI, vI) =>
+      if alI.length != nFiles || vI.length != raw.length then
+        pure { model := model, agree := false, spec := "bad:shape" }
+      else
+      -- per-file tolerances for slope / intercept
+      let tols : List (Float × Float) := (alM32.zip errs).map fun (a, e) =>
+        (4 * e.1 + ulp32 a.2.1.toFloat, 4 * e.2 + ulp32 a.2.2.toFloat)
+      let paramsAgree := ((alM32.zip alI).zip tols).all fun ((m, i), t) =>
+        sameBits32 m.1 i.1 && close32 m.2.1 i.2.1 t.1 && close32 m.2.2 i.2.2 t.2
+      let alignedAgree := ((fs32.zip (vM.zip vI))).all fun (x, (m, i)) =>
+        match alM32[x.file]?, tols[x.file]? with
+        | some a, some t =>
+          let xn := (x.rt / a.1).toFloat
+          let tol := xn.abs * t.1 + t.2
+            + 4 * ulp32 (max (max (xn * a.2.1.toFloat).abs a.2.2.toFloat.abs) m.toFloat.abs)
+          close32 m i tol
+        | _, _ => false
+      let agree := paramsAgree && alignedAgree
+      -- ---------------------------------------------------------------- spec on the impl's reply
+      let spec : String :=
+        if !specParamsFinite alI then "bad:nonfinite_param"
+        else if !specMaxPos alI then "bad:max_rt_nonpositive"
+        else if !specScale fs32 alI then "bad:scale"
+        else if !specAffine sameBits32 fs32 alI vI then "bad:aligned_ne_affine"
+        else if !specAlignedFinite fs32 vI then "bad:nonfinite_aligned"
+        else if !(if raw.length ≤ 48 then specMonotone fs32 alI vI else monotoneSorted nFiles fs32 alI vI)
+          then "bad:not_monotone"
+        else
+        -- exact-arithmetic clauses (only when every q and rt is finite)
+        let featsQ? : Option (List (Feat Rat)) := raw.mapM fun (f, p, l, q, rt) => do
+          let q' ← ratOf32 q; let rt' ← ratOf32 rt; pure (⟨f, p, l, q', rt'⟩ : Feat Rat)
+        match featsQ?, ratOf32 thr32, alI.mapM (fun a => do
+            let m ← ratOf32 a.1; let s ← ratOf32 a.2.1; let i ← ratOf32 a.2.2; pure (m, s, i)) with
+        | some featsQ, some thrQ, some alQ =>
+          let rowsQ := rtRows ceilQ thrQ featsQ nFiles
+          let errQ : List (Rat × Rat) := errs.map fun e => (ratOf64 e.1, ratOf64 e.2)
+          -- own file: regression of x on itself, slope = Sxx/(Sxx+ε) ∈ [0, 1]
+          let ownBad := (List.range nFiles).any fun f =>
+            ownFile rowsQ f &&
+            match alQ[f]?, errQ[f]? with
+            | some a, some e =>
+              let tol := 4 * e.1 + absQ a.2.1 * dyadic 1 22 + dyadic 1 149
+              !(decide (-tol ≤ a.2.1) && decide (a.2.1 ≤ 1 + tol))
+            | _, _ => true
+          if ownBad then "bad:own_file_slope_out_of_range" else
+          let eqBad := (List.range nFiles).any fun f => (List.range nFiles).any fun g =>
+            f < g &&
+            match alQ[f]?, alQ[g]?, errQ[f]?, errQ[g]? with
+            | some a, some b, some ea, some eb =>
+              let allow (x x' : Rat) : Rat :=
+                4 * (absQ x * ea.1 + ea.2 + absQ x' * eb.1 + eb.2)
+                + dyadic 1 22 * (absQ (a.2.1 * x) + absQ a.2.2 + absQ (b.2.1 * x') + absQ b.2.2)
+                + dyadic 1 140
+              !specEquivariantPair epsQ rowsQ f g (a.2.1, a.2.2) (b.2.1, b.2.2) allow
+            | _, _, _, _ => true
+          if eqBad then "bad:not_equivariant" else "ok"
+        | _, _, _ => "ok"   -- a non-finite q / rt in the input: the exact-arithmetic clauses do not apply
+      pure { model := model, agree := agree, spec := spec }
+
+/-! ### `rtpredict` / `imspredict` -/
+
+def handlePredict (ims : Bool) (args impl : List String) : Option Reply := do
+  let parseReq : P (List (Float32)) := do
+    let _ ← list bytes
+    list (do
+      let _ ← nat; let _ ← int; let _ ← f32
+      if ims then let _ ← nat
+      let obs ← f32
+      pure obs)
+  let obs ← run parseReq args
+  let hi : Float := if ims then 2.0 else 1.0
+  let implText := " ".intercalate impl
+  match impl with
+  | "1" :: rest =>
+    match run (list (do let r ← f64; let p ← f32; let d ← f32; pure (r, p, d))) rest with
+    | none => pure { model := "unparsed", agree := false, spec := "bad:shape" }
+    | some rows =>
+      if rows.length != obs.length then pure { model := "shape", agree := false, spec := "bad:shape" } else
+      -- the model takes the raw regression output `r` from the reply (the fit itself is C15's subject)
+      let outs := (rows.zip obs).map fun ((r, _, _), o) =>
+        (r, predictOut Float.toFloat32 Float32.abs 0.0 hi r o)
+      let model := "1 " ++ outList (fun (t : Float × Float32 × Float32) =>
+        s!"{outF64 t.1} {outF32 t.2.1} {outF32 t.2.2}") outs
+      let bad := (rows.zip obs).filterMap fun ((_, p, d), o) =>
+        specPredict sameBits32 Float32.abs (0.0 : Float32) hi.toFloat32 o p d
+      let spec := match bad with
+        | [] => "ok"
+        | c :: _ => "bad:" ++ c
+      pure (exact model implText spec)
+  | "0" :: rest =>
+    match run (list (do let p ← f32; let d ← f32; pure (p, d))) rest with
+    | none => pure { model := "unparsed", agree := false, spec := "bad:shape" }
+    | some rows =>
+      -- fit failed: `predict` returns before touching any feature (harness initialises both to 0.0)
+      let model := "0 " ++ outList (fun (_ : Float32) => "0 0") obs
+      let spec := if rows.all (fun (p, d) => p.toBits == 0 && d.toBits == 0) && rows.length == obs.length
+        then "ok" else "bad:touched_without_fit"
+      pure (exact model implText spec)
+  | _ =>
+    pure { model := "?", agree := false, spec := if impl == ["panic"] then "bad:panic" else "bad:shape" }
 
 def handle (op : String) (args impl : List String) : Option Reply :=
   match op with
+  | "align" => handleAlign args impl
+  | "rtpredict" => handlePredict false args impl
+  | "imspredict" => handlePredict true args impl
   | _ => none
 
 end Sage.C20
